@@ -1,7 +1,7 @@
 #!/bin/bash
 # usage: seed_confirm.sh Cxx   -- copies /tmp/wt_Cxx/SEED to /verif/seeded/Cxx, confirms the demo fails with / passes without the change
 set -u
-ID=$1; WT=/tmp/wt_$ID; D=/verif/seeded/$ID
+ID=$1; WT=${WT:-/tmp/wt_$ID}; D=/verif/seeded/$ID
 mkdir -p $D && cp $WT/SEED/patch.diff $WT/SEED/demo.py $WT/SEED/meta.json $D/ 2>/dev/null
 git -C $WT diff -- pysersic > $D/patch.diff
 echo "== patch"; cat $D/patch.diff | head -60
